@@ -65,6 +65,10 @@ THEOREMS = [P + n for n in (
     "generated_subquery_env_ok",
     "subquery_env_spec",
     "wrapped_subquery_comparison_witness",
+    "generated_subquery_args_ok",
+    "memo_transparent",
+    "subquery_memo_spec",
+    "deduped_memo_key_witness",
 )]
 
 CMP_PY = {ast.Eq: "eq", ast.NotEq: "ne", ast.Lt: "lt", ast.LtE: "le", ast.Gt: "gt", ast.GtE: "ge"}
@@ -234,6 +238,30 @@ def _executor_facts(problems):
         problems.append("aggregate(): cannot tell how operand columns are attached to context.table.rows")
         form = "subscriptStore"
     facts["widen"] = form
+    # ---- _compile_subquery: `outer_columns = list(scope.external_columns if scope else [])` (the SUBQUERY_* arguments = memo key)
+    cs = fns.get("_compile_subquery")
+    args_form = None
+    if cs is not None:
+        assigns = [n for n in ast.walk(cs) if isinstance(n, ast.Assign) and any(isinstance(t, ast.Name) and t.id == "outer_columns" for t in n.targets)]
+        if len(assigns) == 1:
+            v = assigns[0].value
+            ok = (isinstance(v, ast.Call) and isinstance(v.func, ast.Name) and v.func.id == "list" and len(v.args) == 1 and not v.keywords)
+            if ok:
+                a0 = v.args[0]
+                src = a0.body if isinstance(a0, ast.IfExp) else a0
+                ok = isinstance(src, ast.Attribute) and src.attr == "external_columns" and isinstance(src.value, ast.Name) and src.value.id == "scope"
+                if ok and isinstance(a0, ast.IfExp):
+                    ok = isinstance(a0.orelse, (ast.List, ast.Tuple)) and not a0.orelse.elts
+            args_form = "allExternal" if ok else "other"
+            # the list must reach the SUBQUERY_* calls unchanged: no other store to the name, no mutation
+            stores = [n for n in ast.walk(cs) if isinstance(n, ast.Name) and n.id == "outer_columns" and isinstance(n.ctx, ast.Store)]
+            muts = [n for n in ast.walk(cs) if isinstance(n, ast.Attribute) and isinstance(n.value, ast.Name) and n.value.id == "outer_columns"]
+            if len(stores) != 1 or muts:
+                args_form = "other"
+    if args_form is None:
+        problems.append("_compile_subquery: cannot find how outer_columns is built")
+        args_form = "allExternal"
+    facts["subq_args"] = args_form
     # ---- _append_unmatched_join_rows: `if side in (…)` twice
     fn = fns.get("_append_unmatched_join_rows")
     sides = []
@@ -372,6 +400,7 @@ def translate(chk: Check) -> str:
         "def subqueryEnv : List (String × String) := ["
         + ", ".join(f'("{k}", "{sub_env[k]}")' for k in ("SUBQUERY_COMPARISON", "SUBQUERY_EXISTS", "SUBQUERY_SCALAR")) + "]\n"
         f"def subqCmpWrapped : Bool := {lb(sub_env['SUBQUERY_COMPARISON'] != 'bare')}\n"
+        f"def subqueryArgs : SubqueryArgs := .{facts['subq_args']}\n"
         "end SqlglotModel.Generated.C11\n"
     )
 
@@ -1351,7 +1380,11 @@ def root_causes(ir, res=None) -> list:
                 e = k["e"]
                 if e[0] == "col" and any(p["as"] == e[2] and p["e"] != e for p in q["proj"]):
                     tags.add("rc:alias-shadows-order-column")
-        if q["joins"]:
+        sub_preds = []
+        if q["where"] is not None:
+            O._walk_expr(q["where"], lambda e: sub_preds.append(e) if e[0] in ("insub", "exists") else None, lambda _q: None)
+        # an IN / EXISTS subquery in WHERE is unnested by optimize() into a LEFT JOIN: a join as far as the executor is concerned
+        if q["joins"] or sub_preds:
             operands = []
 
             def fe(e):
@@ -1656,6 +1689,9 @@ def subq_class(sql):
             else "all" if " ALL (" in sql else "any")
     place = "case" if "CASE WHEN" in sql else "where"
     corr = "corr" if re.search(r"s\.[ab] (=|>=) [xyz]\.", sql) else "uncorr"
+    if " AS ta, " in sql:
+        form = "scalar" if re.search(r"\(SELECT (COUNT|MAX|SUM)", sql) else form
+        return f"subq2:{form}:{place}"
     return f"subq:{form}:{place}:{corr}"
 
 
@@ -1708,6 +1744,43 @@ def gen_subq_pred(rng):
     db[t] = rows(rng.randint(2, 4))
     if u != t:
         db[u] = [] if rng.random() < 0.2 else rows(rng.randint(1, 4))
+    return db, sql, False, which
+
+
+def gen_subq_two_outer(rng):
+    """Targeted family: a correlated subquery the optimizer cannot unnest (non-equality / OR correlation) that reads
+    columns of TWO outer tables with the SAME bare name (t.a and u.a), over outer rows that agree on one of them and
+    differ on the other -- so a subquery-result memo keyed on fewer values than the subquery reads shows.
+    -> (db, sql, ordered, which)"""
+    t, u, v = rng.sample(["x", "y", "z"], 3)
+    c1, c2 = rng.choice([("a", "a"), ("a", "a"), ("b", "b"), ("a", "b")])
+    first, second = (f"{t}.{c1}", f"{u}.{c2}") if rng.random() < 0.5 else (f"{u}.{c2}", f"{t}.{c1}")
+    corr = rng.choice([f"s.a >= {first} AND s.b <= {second}", f"s.a > {first} OR s.b < {second}",
+                       f"s.a <> {first} AND s.a <> {second}", f"s.b >= {first} AND s.a < {second}"])
+    which = ("sqlite", "duckdb")
+    form = rng.random()
+    if form < 0.4:
+        pred = f"{'NOT ' if rng.random() < 0.4 else ''}EXISTS (SELECT 1 AS one FROM {v} AS s WHERE {corr})"
+        out = f"CASE WHEN {pred} THEN 1 ELSE 0 END AS p"
+    elif form < 0.7:
+        out = f"(SELECT {rng.choice(['COUNT(*)', 'MAX(s.a)', 'SUM(s.b)'])} FROM {v} AS s WHERE {corr}) AS p"
+        pred = None
+    else:
+        op = rng.choice(["<", "<=", ">", ">=", "<>"])
+        pred = f"{t}.b {op} {rng.choice(['ALL', 'ANY'])} (SELECT s.a FROM {v} AS s WHERE {corr})" if rng.random() < 0.5 \
+            else f"{t}.b {'NOT IN' if rng.random() < 0.5 else 'IN'} (SELECT s.a FROM {v} AS s WHERE {corr})"
+        if " ALL " in pred or " ANY " in pred:
+            which = ("duckdb",)
+        out = f"CASE WHEN {pred} THEN 1 WHEN NOT ({pred}) THEN 0 END AS p"
+    join = rng.choice([f"{t} CROSS JOIN {u}", f"{t} LEFT JOIN {u} ON {t}.c = {u}.c", f"{t} INNER JOIN {u} ON {t}.b <> {u}.b"])
+    sql = f"SELECT {t}.a AS ta, {t}.b AS tb, {u}.a AS ua, {u}.b AS ub, {out} FROM {join}"
+    if pred is not None and rng.random() < 0.3:
+        sql = f"SELECT {t}.a AS ta, {t}.b AS tb, {u}.a AS ua, {u}.b AS ub FROM {join} WHERE {pred}"
+    db = {k: [] for k in ("x", "y", "z")}
+    small = [0, 1, 2, 3]
+    db[t] = [(rng.choice(small), rng.choice(small), rng.choice(["a", "b"])) for _ in range(rng.randint(2, 3))]
+    db[u] = [(rng.choice(small), rng.choice(small), rng.choice(["a", "b"])) for _ in range(rng.randint(1, 3))]
+    db[v] = [(rng.choice(small + [None]), rng.choice(small + [None]), None) for _ in range(rng.randint(2, 4))]
     return db, sql, False, which
 
 
@@ -1773,10 +1846,14 @@ def search(chk: Check, hints: list, budget_s: float) -> None:
     # 2. corpus + random queries of the fragment
     tried = 0
     while time.time() - t0 < budget_s and len(chk.violations) < 3:
-        if rng.random() < 0.10:
-            db, sql, ordered, which = gen_subq_pred(rng)
+        if rng.random() < 0.13:
+            if rng.random() < 0.4:
+                db, sql, ordered, which = gen_subq_two_outer(rng)
+                chk.count("family:subquery-two-outer-tables")
+            else:
+                db, sql, ordered, which = gen_subq_pred(rng)
+                chk.count("family:subquery-predicates")
             tried += 1
-            chk.count("family:subquery-predicates")
             st, detail = compare_sql(db, sql, ordered, which)
             bump("subq:" + st, {"sql": sql, "detail": detail[:200]} if st != "agree" else None)
             chk.case(("subq", sql, db), nontrivial=True, sample={"sql": sql, "db": db, "status": st} if tried % 97 == 1 else None)
